@@ -410,14 +410,21 @@ func setField(msg protoreflect.Message, fdesc protoreflect.FieldDescriptor, valu
 		}
 		defer iter.Done()
 
-		list := msg.Mutable(fdesc).List()
-		list.Truncate(0)
+		// Convert all the elements before touching the field: the
+		// iterable may be (a view of) this very field, as in m.f = m.f,
+		// and a conversion error must leave the field as it was.
+		var elems []protoreflect.Value
 		var x starlark.Value
 		for i := 0; iter.Next(&x); i++ {
 			v, err := toProto(fdesc, x)
 			if err != nil {
 				return fmt.Errorf("index %d: %v", i, err)
 			}
+			elems = append(elems, v)
+		}
+		list := msg.Mutable(fdesc).List()
+		list.Truncate(0)
+		for _, v := range elems {
 			list.Append(v)
 		}
 		return nil
@@ -434,8 +441,14 @@ func setField(msg protoreflect.Message, fdesc protoreflect.FieldDescriptor, valu
 
 		// Each value is converted using toProto as usual, passing the key/value
 		// field descriptors to check their types.
-		msg.Clear(fdesc)
-		mutMap := msg.Mutable(fdesc).Map()
+		// Convert all the entries before touching the field: the mapping
+		// may be (a view of) this very field, as in m.f = m.f, and a
+		// conversion error must leave the field as it was.
+		type entry struct {
+			k protoreflect.MapKey
+			v protoreflect.Value
+		}
+		var entries []entry
 		var k starlark.Value
 		for iter.Next(&k) {
 			kproto, err := toProto(fdesc.MapKey(), k)
@@ -457,9 +470,14 @@ func setField(msg protoreflect.Message, fdesc protoreflect.FieldDescriptor, valu
 				return fmt.Errorf("in map field %s, at key %s: %w", fdesc.Name(), k.String(), err)
 			}
 
-			mutMap.Set(kproto.MapKey(), vproto)
+			entries = append(entries, entry{kproto.MapKey(), vproto})
 		}
 
+		msg.Clear(fdesc)
+		mutMap := msg.Mutable(fdesc).Map()
+		for _, e := range entries {
+			mutMap.Set(e.k, e.v)
+		}
 		return nil
 	}
 
